@@ -11,6 +11,8 @@ PROP = 'C13'
 def worker(chunk):
     if chunk and chunk[0] == 'inflight':
         return inflight_worker(chunk)
+    if chunk and chunk[0] == 'preempt':
+        return c04.preempt_worker(tuple(chunk) + (True, csig))
     if chunk and chunk[0] == 'loss_in_cb':
         from . import c16
         return c16.loss_in_callback_worker(chunk)
@@ -131,7 +133,8 @@ def scenarios(tier):
 
 
 RULE = ("the C04 scenario families (2..3 CAs, NAME orderings, AAC or fixed, equal / adjacent / distinct addresses, claim delays, "
-        "uniform latencies; 2-CA families with every single latency / wake deviation); in every run every CA is probed at "
+        "uniform latencies; 2-CA families with every single latency / wake deviation; the job thread of either ECU held at every source "
+        "line of the claim code while the contending claim is handled); in every run every CA is probed at "
         "8 send entry points (send_pgn PDU1 / PDU2, send_message, send_request ordinary / ADDRESSCLAIM, DM22 request, DM1 send, "
         "DM14 request) 10 us and 6 ms after every bus frame and every 125 ms; non-trivial if the CAs' final states differ or "
         "a contention took place")
@@ -146,6 +149,11 @@ def run(tier, seed):
     heavy = [[it] for it in items if it[1] > 0]
     light = [it for it in items if it[1] == 0]
     chunks = heavy + [light[i:i + 25] for i in range(0, len(light), 25)]
+    # the job thread of either ECU held at every source line of the claim code while the contending claim is handled (the
+    # C04 pre-emption family), probed like every other run
+    for it in c04.preempt_items(tier, seed):
+        if tier != 'quick' or it[1]['cas'][1]['delay'] in (0.249, 0.2495):
+            chunks.append(it)
     for dll in ('j1939-21', 'j1939-22'):
         chunks.append(('loss_in_cb', dll, seed, 'C13'))      # the address is lost while the cyclic DM1 is being prepared
         for kind in ('bam', 'out', 'in'):
